@@ -127,6 +127,11 @@ def make_sink(rec, spec, state):
         k = state['n']
         state['n'] += 1
         rec.rec('sink_start', k, x)
+        if spec.get('fail_at') == k:
+            # the consumer raises for this one element (the source's polling loop dies of it; the item counts as handled)
+            rec.rec('sink_end', k)
+            rec.rec('sink_raised', k)
+            raise RuntimeError('injected sink failure')
         return k, lat[k % len(lat)]
 
     if kind == 'sync':
